@@ -1,12 +1,14 @@
-(* Extraction of the C02 models (Model/Soundness.v) with the executable prime fields of Base/ZpOps.v
-   for the correspondence driver.  Directives: ExtrOcamlBasic only. *)
+(* Extraction of the C02 models (Model/Soundness.v) with the executable prime fields of Base/ZpOps.v and their quadratic /
+   cubic extensions (Model/PolynomExt.v: FOps records over C08's model of QuadExtension / CubeExtension) for the
+   correspondence driver.  Directives: ExtrOcamlBasic only. *)
 From Coq Require Extraction ExtrOcamlBasic.
 From VBase Require Import MachInt FieldOps ZpOps.
-From VModel Require Import Soundness.
+From VModel Require Import Soundness PolynomExt.
 Extraction Language OCaml.
 Separate Extraction
-  verify_model deep_evaluations evaluate_constraints ood_equation_b fam_trans fam_step_trans query_xs
+  verify_model deep_evaluations evaluate_constraints ood_equation_b fam_trans fam_aux_trans fam_step_trans query_xs
   valid_b upd_cell is_asserted only_exempt asserted_cells
   trans_divisor_eval bnd_divisor_eval peval fpow
   seed_of flat_avals ctx_words
-  zp_ops P64 P62 P128.
+  zp_ops P64 P62 P128
+  quad64_ops quad62_ops quad128_ops cube64_ops cube62_ops.
